@@ -406,6 +406,7 @@ pub fn run(ctx: &Ctx) -> Report {
         });
         rep.merge(r);
     }
+    rep.merge(super::mega::run(ctx, "C19", 1500, 60000));
     if ctx.strict() {
         rep.require("eof_cuts", 1000);
         rep.require("eof_ok_expected_and_seen", 30);
